@@ -224,6 +224,16 @@ fn pumped(g: Group, t: Tier) -> Vec<String> {
             out.push(nest.repeat(*k));
         }
     }
+    // every single symbol repeated to the limits of the narrow integer types (a length or offset kept in a u8 / u16 wraps
+    // there), alone and after a short valid prefix
+    for a in &alpha {
+        for n in crate::props::c01::WIDTH_LIMITS {
+            if a.len() == 1 || n <= 257 {
+                out.push(a.repeat(n));
+                out.push(format!("A: b\n{}", a.repeat(n)));
+            }
+        }
+    }
     let n = t.pick(20_000, 100_000);
     out.push("a".repeat(n));
     out.push(format!("A: {}", "b ".repeat(n / 2)));
@@ -346,7 +356,7 @@ impl Prop for C02 {
         "model_checking"
     }
     fn rule(&self, _t: Tier) -> String {
-        "for each of the 60+ text-parsing entry points: (1) every string over its native character-class alphabet up to the length bound (full input trie; states = strings); (2) every sequence of its line templates / tokens up to the sequence bound; (3) pumped inputs w^k for every w up to length 2 (thorough 3) with k in {8, 64} (thorough 512), unbalanced nests and 20 kB (thorough 100 kB) single lines; (4) for the VCS-location codecs every sequence of 4-6 (thorough 7) tokens of the longest value grammar (url, opening bracket, subpath, closing bracket, -b, branch, blank); (5) for typed documents, the all-valid document built from the type's field table with <= 1 (thorough 2) fields absent or replaced by one of 7 garbage values or up to 6 near-valid values (pieces of the valid values of the field: first / last item, value cut short, value with a trailing comma) and, one field at a time, by every string of <= 3 symbols over 14 (thorough 20) delimiter characters of the typed value grammars (quotes, '=', ',', ':', brackets, '|', '-'), each k-deviation document also without its final newline, with CR LF line ends, and with tab indentation and no blank after the colon; each call runs under catch_unwind with the parser loop budget armed (quadratic envelope), the allocation cap and the stall watchdog, and pumped inputs are also timed; non-trivial = distinct (entry point, non-empty string) of tiers 1-2".into()
+        "for each of the 60+ text-parsing entry points: (1) every string over its native character-class alphabet up to the length bound (full input trie; states = strings); (2) every sequence of its line templates / tokens up to the sequence bound; (3) pumped inputs w^k for every w up to length 2 (thorough 3) with k in {8, 64} (thorough 512), unbalanced nests, every class symbol repeated 255 / 256 / 257 / 65535 / 65536 / 65537 times (alone and after a valid line) and 20 kB (thorough 100 kB) single lines; (4) for the VCS-location codecs every sequence of 4-6 (thorough 7) tokens of the longest value grammar (url, opening bracket, subpath, closing bracket, -b, branch, blank); (5) for typed documents, the all-valid document built from the type's field table with <= 1 (thorough 2) fields absent or replaced by one of 7 garbage values or up to 6 near-valid values (pieces of the valid values of the field: first / last item, value cut short, value with a trailing comma) and, one field at a time, by every string of <= 3 symbols over 14 (thorough 20) delimiter characters of the typed value grammars (quotes, '=', ',', ':', brackets, '|', '-'), each k-deviation document also without its final newline, with CR LF line ends, and with tab indentation and no blank after the colon; each call runs under catch_unwind with the parser loop budget armed (quadratic envelope), the allocation cap and the stall watchdog, and pumped inputs are also timed; non-trivial = distinct (entry point, non-empty string) of tiers 1-2".into()
     }
     fn bounds(&self, t: Tier) -> Value {
         let eps = entry_points();
